@@ -4,11 +4,14 @@
    Names here are presentation-format octet strings, already lower-cased by dns.CanonicalName.
    [NameInZone_true_shape]: a name is accepted only if the zone is the root, the name is the zone, or the
    name ends in "." ++ zone (a plain strings.HasSuffix(name, zone) would not satisfy this: see the examples).
-   The label-list model of the same test is [is_sub]; the two are compared on generated names (label-boundary
-   near misses, escaped dots, case mixes) by the unit driver's CaseZoneFilter cases through the real
-   FilterRRsToZone. *)
+   [NameInZone_is_sub]: on canonical names whose labels hold neither a dot nor a backslash (so that the
+   presentation format needs no escapes), written leaf first with a dot after every label, the translated
+   function computes exactly the model's [is_sub] on label lists - the test [in_zone_answer], [relayed_answer]
+   and the containment theorems are stated with.  Names with escapes are compared on generated inputs
+   (escaped dots, label-boundary near misses, case mixes) by the unit driver's CaseZoneFilter cases through
+   the real FilterRRsToZone. *)
 From Coq Require Import String.
-From Sdns Require Import Common.Base Common.GoList Gen.C07 C07.Model C07.Proofs_fold.
+From Sdns Require Import Common.Base Common.GoList Gen.C07 C07.Model C07.Proofs_names C07.Proofs_fold.
 Open Scope N_scope.
 
 (* what an accepted (name, zone) pair looks like, as octet strings in presentation format *)
@@ -38,6 +41,197 @@ Proof.
   rewrite <- (firstn_skipn k nm) at 1. rewrite E6. rewrite app_assoc. f_equal.
   replace k with (S (k - 1)) at 1 by lia.
   rewrite (firstn_snoc 0 (k - 1) nm) by lia. now rewrite E5.
+Qed.
+
+(* ---- presentation format of names whose labels hold neither a dot nor a backslash ---- *)
+Definition plain_label (l : label) : Prop := l <> [] /\ Forall (fun b => b <> 46 /\ b <> 92) l.
+Definition plain (n : name) : Prop := Forall plain_label n.
+(* labels leaf first, each followed by a dot *)
+Definition pres_labels (ls : list label) : list N := concat (map (fun l => l ++ [46]) ls).
+Definition pres (n : name) : list N := match n with [] => [46] | _ => pres_labels (rev n) end.
+
+Lemma pres_labels_cons l ls : pres_labels (l :: ls) = l ++ 46 :: pres_labels ls.
+Proof. unfold pres_labels. cbn [map concat]. now rewrite <- app_assoc. Qed.
+Lemma pres_labels_app a b : pres_labels (a ++ b) = pres_labels a ++ pres_labels b.
+Proof. unfold pres_labels. now rewrite map_app, concat_app. Qed.
+
+(* the first dot of two equal strings sits at the same place *)
+Lemma first_dot_split (l pre A B : list N) :
+  Forall (fun b => b <> 46) l -> l ++ 46 :: A = pre ++ 46 :: B ->
+  (pre = l /\ A = B) \/ (exists pre', pre = l ++ 46 :: pre' /\ A = pre' ++ 46 :: B) \/
+  (exists l2, l = pre ++ 46 :: l2).
+Proof.
+  revert pre; induction l as [|c l IH]; intros pre Hl E.
+  - destruct pre as [|x pre]; cbn in E.
+    + injection E as E. left. split; [reflexivity|exact E].
+    + injection E as -> E. right; left. exists pre. split; [reflexivity|exact E].
+  - destruct pre as [|x pre]; cbn in E.
+    + injection E as -> E. right; right. exists l. reflexivity.
+    + injection E as -> E. inversion Hl as [|? ? Hc Hl']; subst.
+      destruct (IH pre Hl' E) as [[-> ->]|[[pre' [-> ->]]|[l2 ->]]].
+      * left. split; reflexivity.
+      * right; left. exists pre'. split; reflexivity.
+      * right; right. exists l2. reflexivity.
+Qed.
+
+Lemma plain_no_dot l : plain_label l -> Forall (fun b => b <> 46) l.
+Proof. intros [_ H]. eapply Forall_impl; [|exact H]. cbn. tauto. Qed.
+
+Lemma no_dot_absurd (pre l2 : list N) : Forall (fun b => b <> 46) (pre ++ 46 :: l2) -> False.
+Proof. intros H. apply Forall_app in H as [_ H]. inversion H; subst. congruence. Qed.
+
+Lemma pres_labels_inj ns : forall zs, Forall plain_label ns -> Forall plain_label zs ->
+  pres_labels ns = pres_labels zs -> ns = zs.
+Proof.
+  induction ns as [|l ns IH]; intros [|m zs] Hn Hz E.
+  - reflexivity.
+  - rewrite pres_labels_cons in E. destruct m; discriminate.
+  - rewrite pres_labels_cons in E. destruct l; discriminate.
+  - rewrite !pres_labels_cons in E. inversion Hn; inversion Hz; subst.
+    destruct (first_dot_split l m _ _ (plain_no_dot _ H1) E) as [[-> E']|[[pre' [-> _]]|[l2 ->]]].
+    + f_equal. apply IH; assumption.
+    + exfalso. eapply no_dot_absurd. apply plain_no_dot. eassumption.
+    + exfalso. eapply no_dot_absurd. apply plain_no_dot. eassumption.
+Qed.
+
+(* a suffix that starts right behind a dot starts at a label boundary *)
+Lemma suffix_aligned ns : forall pre zs, Forall plain_label ns -> Forall plain_label zs ->
+  pres_labels ns = pre ++ 46 :: pres_labels zs -> exists t, ns = t ++ zs.
+Proof.
+  induction ns as [|l ns IH]; intros pre zs Hn Hz E.
+  - destruct pre; discriminate.
+  - rewrite pres_labels_cons in E. inversion Hn; subst.
+    destruct (first_dot_split l pre _ _ (plain_no_dot _ H1) E) as [[-> E']|[[pre' [-> E']]|[l2 ->]]].
+    + exists [l]. cbn. f_equal. apply pres_labels_inj; assumption.
+    + destruct (IH pre' zs H2 Hz E') as [t ->]. exists (l :: t). reflexivity.
+    + exfalso. eapply no_dot_absurd. apply plain_no_dot. eassumption.
+Qed.
+
+Lemma pres_labels_no_backslash ns : Forall plain_label ns -> Forall (fun b => b <> 92) (pres_labels ns).
+Proof.
+  induction ns as [|l ns IH]; intros H; [constructor|]. inversion H as [|? ? [_ Hl] H']; subst.
+  rewrite pres_labels_cons. apply Forall_app. split.
+  - eapply Forall_impl; [|exact Hl]. cbn. tauto.
+  - constructor; [lia|]. now apply IH.
+Qed.
+
+Lemma escapedDot_no_backslash fuel nm i :
+  (0 < fuel)%nat -> Forall (fun b => b <> 92) nm -> go_escapedDot fuel nm i = Some false.
+Proof.
+  intros Hf Hn. unfold go_escapedDot. destruct fuel as [|f]; [lia|]. cbn [go_escapedDot_loop1].
+  assert (E : (go_idx 0 nm (i - 1)%Z =? 92) = false).
+  { apply N.eqb_neq. unfold go_idx. destruct (Z.ltb (i - 1) 0); [lia|].
+    destruct (nth_in_or_default (Z.to_nat (i - 1)) nm 0) as [Hin| ->]; [|lia].
+    rewrite Forall_forall in Hn. exact (Hn _ Hin). }
+  rewrite E, andb_false_r. reflexivity.
+Qed.
+
+Lemma pres_labels_len ls : ls <> [] -> Forall plain_label ls -> (2 <= length (pres_labels ls))%nat.
+Proof.
+  destruct ls as [|l ls]; [congruence|]. intros _ H. inversion H as [|? ? [Hl _] _]; subst.
+  rewrite pres_labels_cons, app_length. destruct l; [congruence|]. cbn. lia.
+Qed.
+
+Lemma pres_labels_last_dot t : t <> [] -> exists s, pres_labels t = s ++ [46].
+Proof.
+  intros H. destruct (exists_last H) as [t' [l ->]].
+  rewrite pres_labels_app. unfold pres_labels at 2. cbn [map concat]. rewrite app_nil_r.
+  exists (pres_labels t' ++ l). now rewrite app_assoc.
+Qed.
+
+Lemma go_list_eqb_refl (a : list N) : go_list_eqb N.eqb a a = true.
+Proof. now apply go_bytes_eqb_eq. Qed.
+
+Lemma NameInZone_complete fuel t zs :
+  (0 < fuel)%nat -> Forall plain_label t -> Forall plain_label zs ->
+  go_NameInZone fuel (pres_labels (t ++ zs)) (pres_labels zs) = Some true.
+Proof.
+  intros Hf Ht Hz. rewrite pres_labels_app.
+  assert (Hnb : Forall (fun b => b <> 92) (pres_labels t ++ pres_labels zs))
+    by (apply Forall_app; split; apply pres_labels_no_backslash; assumption).
+  set (T := pres_labels t) in *. set (Z := pres_labels zs) in *.
+  unfold go_NameInZone. rewrite (escapedDot_no_backslash fuel _ _ Hf Hnb).
+  destruct (go_list_eqb N.eqb Z [46] || go_list_eqb N.eqb Z []); [reflexivity|].
+  destruct (go_list_eqb N.eqb (T ++ Z) Z) eqn:E3; [reflexivity|].
+  assert (HT : T <> []) by (intros ->; cbn in E3; rewrite go_list_eqb_refl in E3; discriminate).
+  unfold go_len. rewrite app_length.
+  destruct (Z.leb (Z.of_nat (length T + length Z)) (Z.of_nat (length Z))) eqn:E4.
+  { apply Z.leb_le in E4. destruct T; [congruence|cbn in E4; lia]. }
+  assert (Ht' : t <> []) by (intros ->; apply HT; reflexivity).
+  destruct (pres_labels_last_dot t Ht') as [s Hs]. fold T in Hs.
+  replace (Z.of_nat (length T + length Z) - Z.of_nat (length Z))%Z with (Z.of_nat (length T)) by lia.
+  assert (Hlen : length T = S (length s)) by (rewrite Hs, app_length; cbn; lia).
+  rewrite go_idx_nth by lia.
+  replace (Z.to_nat (Z.of_nat (length T) - 1)) with (length s) by lia.
+  rewrite Hs at 1. rewrite <- app_assoc. rewrite app_nth2 by lia. rewrite Nat.sub_diag. cbn [app nth].
+  rewrite N.eqb_refl. cbn [negb orb].
+  unfold go_slice_from. rewrite Nat2Z.id. rewrite skipn_app, skipn_all, Nat.sub_diag. cbn [skipn app].
+  rewrite go_list_eqb_refl. reflexivity.
+Qed.
+
+Lemma NameInZone_labels fuel ns zs :
+  (0 < fuel)%nat -> Forall plain_label ns -> Forall plain_label zs -> zs <> [] ->
+  exists b, go_NameInZone fuel (pres_labels ns) (pres_labels zs) = Some b /\ (b = true <-> exists t, ns = t ++ zs).
+Proof.
+  intros Hf Hn Hz Hz0.
+  assert (Hex : exists b, go_NameInZone fuel (pres_labels ns) (pres_labels zs) = Some b).
+  { unfold go_NameInZone. rewrite (escapedDot_no_backslash fuel _ _ Hf (pres_labels_no_backslash _ Hn)).
+    repeat match goal with |- context [if ?c then _ else _] => destruct c end; eauto. }
+  destruct Hex as [b Hb]. exists b. split; [exact Hb|].
+  pose proof (pres_labels_len zs Hz0 Hz) as Hlen.
+  destruct b; split; intros H; try reflexivity.
+  - destruct (NameInZone_true_shape _ _ _ Hb) as [E|[E|[E|[pre E]]]].
+    + rewrite E in Hlen. cbn in Hlen. lia.
+    + rewrite E in Hlen. cbn in Hlen. lia.
+    + exists []. cbn. apply pres_labels_inj; assumption.
+    + cbn [app] in E. eapply suffix_aligned; eassumption.
+  - discriminate.
+  - destruct H as [t ->]. apply Forall_app in Hn as [Ht _].
+    rewrite (NameInZone_complete fuel t zs Hf Ht Hz) in Hb. discriminate.
+Qed.
+
+Lemma plain_rev n : plain n -> Forall plain_label (rev n).
+Proof. apply Forall_rev. Qed.
+
+Lemma pres_nonempty n : n <> [] -> pres n = pres_labels (rev n).
+Proof. destruct n; [congruence|reflexivity]. Qed.
+
+(* THE TIE: on canonical names with plain labels the translated NameInZone is the model's is_sub *)
+Lemma NameInZone_is_sub fuel z n :
+  (0 < fuel)%nat -> plain (canon z) -> plain (canon n) ->
+  go_NameInZone fuel (pres (canon n)) (pres (canon z)) = Some (is_sub z n).
+Proof.
+  intros Hf Hz Hn.
+  destruct z as [|zl z].
+  - cbn. reflexivity.
+  - set (cz := canon (zl :: z)) in *. assert (Hcz : cz <> []) by (unfold cz; rewrite canon_cons; discriminate).
+    rewrite (pres_nonempty cz Hcz).
+    assert (Hrz : rev cz <> []) by (intros E; apply Hcz; rewrite <- (rev_involutive cz), E; reflexivity).
+    destruct n as [|nl n].
+    + (* the root is not inside a proper zone *)
+      pose proof (pres_labels_len (rev cz) Hrz (plain_rev _ Hz)) as Hlen.
+      cbn [canon map pres]. unfold go_NameInZone.
+      destruct (go_list_eqb N.eqb (pres_labels (rev cz)) [46]) eqn:E1.
+      { apply go_bytes_eqb_eq in E1. rewrite E1 in Hlen. cbn in Hlen. lia. }
+      destruct (go_list_eqb N.eqb (pres_labels (rev cz)) []) eqn:E2.
+      { apply go_bytes_eqb_eq in E2. rewrite E2 in Hlen. cbn in Hlen. lia. }
+      cbn [orb].
+      destruct (go_list_eqb N.eqb [46] (pres_labels (rev cz))) eqn:E3.
+      { apply go_bytes_eqb_eq in E3. rewrite <- E3 in Hlen. cbn in Hlen. lia. }
+      unfold go_len. cbn [length].
+      destruct (Z.leb (Z.of_nat 1) (Z.of_nat (length (pres_labels (rev cz))))) eqn:E4; [reflexivity|].
+      apply Z.leb_gt in E4. lia.
+    + set (cn := canon (nl :: n)) in *. assert (Hcn : cn <> []) by (unfold cn; rewrite canon_cons; discriminate).
+      rewrite (pres_nonempty cn Hcn).
+      destruct (NameInZone_labels fuel (rev cn) (rev cz) Hf (plain_rev _ Hn) (plain_rev _ Hz) Hrz) as [b [Hb Hiff]].
+      rewrite Hb. f_equal.
+      assert (Hs : is_sub (zl :: z) (nl :: n) = true <-> exists t, rev cn = t ++ rev cz).
+      { rewrite is_sub_spec. fold cz cn. split.
+        - intros [rest E]. exists (rev rest). rewrite E, rev_app_distr. reflexivity.
+        - intros [t E]. exists (rev t). rewrite <- (rev_involutive cn), E, rev_app_distr, rev_involutive. reflexivity. }
+      destruct b, (is_sub (zl :: z) (nl :: n)); try reflexivity.
+      * symmetry. apply Hs, Hiff. reflexivity.
+      * apply Hiff, Hs. reflexivity.
 Qed.
 
 Local Open Scope string_scope.
